@@ -235,7 +235,7 @@ def gen_table(rng, tier):
     else:
         header = None
     rows = []
-    nlabels = rng.between(2, 6)
+    nlabels = rng.between(11, 15) if rng.chance(0.1) else rng.between(2, 6)
     labels = []
     while len(labels) < nlabels:
         l = text_cell(rng)
@@ -311,6 +311,8 @@ def expected_csv(T):
         return "exc"
     if any(not trim(c) for c in data[0]):
         return None
+    if any(T["kinds"][j] == "t" and is_numeric_text(c) for j, c in enumerate(data[0])):
+        return None       # (the filter removed the first row) a text column would be taken for numbers
     k = T["out"]
     kinds = rotate(T["kinds"], k)
     names = [hx(trim(h)) for h in rotate(header, k)] if header is not None else ["-"] * T["ncols"]
@@ -532,7 +534,7 @@ def run(chk, replay=None):
                     ln = ln.strip()
                     if ln and not ln.startswith("#"):
                         cases.append((ln.split()[0], ln, ln, None, {"corpus": f}))
-        ncsv = 350 if quick else 4000
+        ncsv = 1800 if quick else 20000
         for i in range(ncsv):
             T = gen_table(rng, chk.tier)
             data = render_csv(rng, T)
@@ -545,20 +547,25 @@ def run(chk, replay=None):
                 T2["filter"] = "0"
                 if T2["header"] is not None:      # distinct, non-empty names (decode() works by name)
                     T2["header"] = [b"n%d_" % j + trim(h)[:6].replace(b'"', b"q") for j, h in enumerate(T2["header"])]
+                if rng.chance(0.3) and T2["ncols"] >= 3:   # a column without any value has no domain
+                    jb = rng.below(T2["ncols"])
+                    if jb != T2["out"]:
+                        T2["rows"] = [r[:jb] + [rng.choice([b"", b" "])] + r[jb + 1:] for r in T2["rows"]]
+                        info_blank = True
                 d2 = render_csv(rng, T2)
                 ln = csv_line(T2, d2, op="var")
                 cases.append(("var", ln, ln, None, {"T": T2}))
             if i % 3 == 0:
                 xd, xexp = render_xrff(rng, T)
                 cases.append(("xrff", "xrff %s %s" % (T["filter"], hx(xd)), None, xexp, {"T": T, "xml": xd}))
-        for _ in range(300 if quick else 4000):
+        for _ in range(1000 if quick else 12000):
             data, d, h = gen_unambiguous(rng)
             ln = "sniff " + hx(data)
             cases.append(("sniff", ln, ln, "ok %d %d" % (d, h), {}))
         # sniffing general tables: model vs code only.  At most 17 data rows: the number of lines the
         # sniffer inspects (20) is a parameter of the model that no theorem depends on; on inputs that
         # fit in the window the tie does not depend on it either.
-        for _ in range(120 if quick else 1500):
+        for _ in range(500 if quick else 6000):
             T = gen_table(rng, chk.tier)
             T["rows"] = T["rows"][:17]
             ln = "sniff " + hx(render_csv(rng, T))
@@ -568,7 +575,7 @@ def run(chk, replay=None):
                 T["rows"] = T["rows"][:17]
                 ln = csv_line(T, render_csv(rng, T), sniff=True)
                 cases.append(("csv", ln, ln, None, {"sniffed": True}))
-        for _ in range(2500 if quick else 40000):
+        for _ in range(10000 if quick else 150000):
             text = b"\n".join(gen_parse_line(rng) for _ in range(rng.between(1, 4)))
             ln = "parse %d %d %d %s" % (rng.choice(b",,,; \t"), rng.below(2), rng.below(2), hx(text))
             cases.append(("parse", ln, ln, None, {}))
@@ -636,6 +643,8 @@ def run(chk, replay=None):
                 for asked, direct, interp in rows:
                     if int(asked) != j:
                         bad = "variable %d reads input %s" % (j, asked)
+                    if direct == "s" + hx(b"<out-of-range>"):
+                        bad = "variable %d reads input %s, the example has fewer inputs" % (j, asked)
                     if interp != "-" and interp != direct:
                         bad = "variable %d: interpreter returns %s, the example holds %s" % (j, interp, direct)
                     chk.count("var:evaluations")
